@@ -36,7 +36,7 @@ def V(rule, sig, detail):
     return {"rule": rule, "sig": sig, "detail": detail}
 
 
-def check_call(scn: dict, cf, out: list) -> None:
+def check_call(scn: dict, cf, out: list, grants=()) -> None:
     cfg = scn["cfg"]
     D = cfg["deadline_us"]
     has_budget = cfg.get("budget") is not None
@@ -66,10 +66,16 @@ def check_call(scn: dict, cf, out: list) -> None:
         if a.kind not in ("exc", "res"):
             continue  # abort / base exceptions: C13's business
         if a.fclass is None:
-            # aborted by the poll that precedes classification
+            if a.kind == "res" and a.end is not None and cfg.get("result_classifier") and not any(e["ev"] == "POLL" and e["ans"] for e in post) \
+                    and not any(e["ev"] == "RCLASSIFY" for e in post) and cf.end["how"] in ("return", "outcome") \
+                    and (cf.end["how"] == "return" or cf.end["out"]["ok"]):
+                # the configured result classifier calls this value a failure, but it was never asked
+                out.append(V("R1", "a returned value was accepted as success without consulting the configured result classifier",
+                             {"call": cf.cid, "attempt": a.k, "entry": entry, "value_is_none": bool(a.end.get("none"))}))
+            # otherwise: aborted by the poll that precedes classification
             continue
         S = static_holds(cfg, cf, idx)
-        budgets = [e for e in post if e["ev"] == "BUDGET"]
+        budgets = [e for e in post if e["ev"] == "BUDGET" and not e.get("ext")]
         retries = [e for e in post if e["ev"] in ("METRIC", "LOG") and e["event"] == "retry"]
         n_retry = max(sum(1 for e in retries if e["ev"] == "METRIC"), sum(1 for e in retries if e["ev"] == "LOG"))
         handlers = [e for e in post if e["ev"] == "HANDLER"]
@@ -147,6 +153,12 @@ def check_call(scn: dict, cf, out: list) -> None:
             holds = set(S)
             if refused:
                 holds.add("BUDGET_EXHAUSTED")
+            elif has_budget and a.end is not None:
+                # the condition itself (the window is full), however the library learnt of it
+                b = cfg["budget"]
+                live = sum(c for (sq, t, c) in grants if sq < a.end["seq"] and a.end["t"] - t <= b["window_us"])
+                if live + 1 > b["max"]:
+                    holds.add("BUDGET_EXHAUSTED")
             if first_true is not None or decision == "A":
                 holds.add("ABORTED")
             if decision == "D":
@@ -166,8 +178,9 @@ def check_call(scn: dict, cf, out: list) -> None:
 def oracle(scn: dict, trace: list) -> list:
     out: list = []
     calls = split_calls(trace)
+    grants = [(e["seq"], e["t"], e["cost"]) for e in trace if e["ev"] == "BUDGET" and e["granted"]]
     for cid in sorted(calls):
-        check_call(scn, calls[cid], out)
+        check_call(scn, calls[cid], out, grants)
     return out
 
 
